@@ -142,7 +142,9 @@ def classify(t, r):
             return d + ":upload-416-loop:" + t["scenario"]["scenario"]["op"]
         return d + ":" + l2_class(t, r)
     if t["scenario"].get("layer") == "up":
-        return d + ":upload"
+        # which branch of the chunk loop keeps going round: the reply the registry repeats
+        sc = t["scenario"]["scenario"]["script"]
+        return d + ":upload:" + (sc[-1]["k"] if sc else "none")
     return d
 
 
@@ -225,6 +227,46 @@ def l2_class(t, r):
     return "%s:%s:faulted=%s:%s" % (s["op"], cl, ",".join(hit) or "none", "+".join(kinds) or "none")
 
 
+def l2_fixed(base, info):
+    """Scenario classes that have produced a violation before (on the unchanged tree or under a
+    seeded change) are run in every tier, whatever the sample."""
+    out = []
+
+    def find(op, R, nm):
+        for b in base:
+            if b["op"] == op and b["R"] == R and len(b["mirrors"]) == nm and \
+                    all(m["mode"] == "has" and m["prio"] == 0 for m in b["mirrors"]) and b["upprio"] == 0:
+                return b
+        return None
+
+    def first(b, cl):
+        return info[l2_key(b)][1].index(cl) + 1
+
+    for op in ("blob-put-chunked", "blob-put-stream"):
+        b = find(op, 3, 0)
+        if b:
+            p = first(b, "upload_patch")
+            for kind in ("416r", "404"):                                   # S2
+                out.append(dict(b, faults=[{"pos": p, "kind": kind}]))
+            for kind in ("500", "504", "404"):                             # seeded change C12-2
+                out.append(dict(b, persist={"class": "upload_patch", "kind": kind, "from": 2}))
+    b = find("blob-delete", 3, 1)                                           # writes skip mirrors
+    if b:
+        out.append(dict(b))
+    b = find("blob-get", 3, 0)                                              # throttle slots
+    if b:
+        out.append(dict(b, R=5, persist={"class": "blob_get", "kind": "trunc700", "from": 1}))
+    for op, cl in (("tag-list-paged", "tag_list"), ("referrer-list-paged", "referrers")):
+        b = find(op, 3, 1)                                                  # continuation without back-off
+        if b:
+            out.append(dict(b, faults=[{"pos": 2, "kind": "500"}]))
+            out.append(dict(b, faults=[{"pos": 2, "kind": "429ra"}]))
+    b = find("referrer-list", 3, 0)                                         # referrers probe
+    if b:
+        out.append(dict(b, faults=[{"pos": 1, "kind": "502"}]))
+    return out
+
+
 def run_l2(ctx, rng, cov):
     thorough = ctx.thorough
     # 1. fault free: request positions of every operation under every configuration
@@ -268,6 +310,7 @@ def run_l2(ctx, rng, cov):
         pick += [dict(s, faults=[{"pos": p1, "kind": k1}, {"pos": p2, "kind": k2}])
                  for s, p1, k1, p2, k2 in rng.sample(doubles, min(len(doubles), 120))]
         pick += rng.sample(persist, min(len(persist), 180))
+    pick += l2_fixed(base, info)
     scns = [dict(s, id="l2-%d" % i) for i, s in enumerate(pick)]
     # Retry-After costs real seconds: keep those runs apart so that they overlap each other
     scns.sort(key=lambda s: -sum(1 for f in s["faults"] if f["kind"] == "429ra") - (5 if (s.get("persist") or {}).get("kind") == "429ra" else 0))
@@ -282,6 +325,65 @@ def run_l2(ctx, rng, cov):
         out.append({"id": t["id"], "events": t["events"], "header": t["header"],
                     "scenario": {"layer": 2, "scenario": s}, "meta": t["meta"]})
     return out
+
+
+# ------------------------------------------------------------------------ upload layer
+def run_up(ctx, rng, cov):
+    g = ctx.tlc_scenarios("RegHttpUploadGen", "C12_up_gen.cfg" if not ctx.thorough else "C12_up_gen3.cfg", workers=1,
+                          label="generator upload scripts (BFS)", timeout=1500)
+    scns = g["scenarios"]
+    if len(scns) < 50 or not any(s["predicted"] == "runaway" for s in scns):
+        raise vlib.ToolError("upload generator produced %d scenarios" % len(scns))
+    if not ctx.thorough and len(scns) > 260:
+        run_away = [s for s in scns if s["predicted"] == "runaway"]
+        rest = [s for s in scns if s["predicted"] != "runaway"]
+        scns = rng.sample(run_away, min(len(run_away), 60)) + rng.sample(rest, min(len(rest), 200))
+    for i, s in enumerate(scns):
+        s["id"] = "up-%d" % i
+        s["R"] = 3
+    traces = drive(ctx, "up", scns, "up", par=24)
+    cov["up_scenarios"] = len(scns)
+    cov["up_predicted_runaway"] = sum(1 for s in scns if s["predicted"] == "runaway")
+    cov["up_observed"] = {}
+    for t in traces:
+        o = t["meta"]["outcome"]
+        cov["up_observed"][o] = cov["up_observed"].get(o, 0) + 1
+    cov["up_as_predicted"] = sum(1 for t in traces if t["meta"].get("exact"))
+    return [{"id": t["id"], "events": t["events"], "header": t["header"], "scenario": {"layer": "up", "scenario": s},
+             "meta": t["meta"]} for t, s in zip(traces, scns)]
+
+
+# ------------------------------------------------------------------- design spec checks
+def model_check(ctx, cov):
+    """Exhaustive checks of (D) composed with (P).  Runs that are expected to fail show a known
+    defect at design level (the spec transcribes the code); each of them is reproduced on the
+    real code by the scenario layers, which is what produces the verdict."""
+    runs = [("RegHttpMC", "C12_mc_quick.cfg", "2 hosts, 1 request, R 1-2, equal priorities, all 21 reply kinds", None),
+            ("RegHttpMC", "C12_live.cfg", "every call returns (liveness)", None),
+            ("RegHttpMC", "C12_mc_s1.cfg", "priorities differ: order of the code (expected: S1)", "Ok"),
+            ("RegHttpMC", "C12_mc_leak.cfg", "2 throttle slots, as the code (expected: stuck in Acquire)", "NoThrottleBlock"),
+            ("RegHttpMC", "C12_mc_leakfixed.cfg", "2 throttle slots, slot returned before re-entry", None),
+            ("RegHttpUpload", "C12_up_code.cfg", "chunk loop as the code (expected: endless repeat, S2)", "NoEndlessRepeat"),
+            ("RegHttpUpload", "C12_up_fixed.cfg", "chunk loop with the no-progress guard: terminates", None)]
+    if ctx.thorough:
+        runs += [("RegHttpMC", "C12_mc_waive.cfg", "all priority assignments, S1 pattern waived", None),
+                 ("RegHttpMC", "C12_mc_doc.cfg", "all priority assignments, documented order: (P) holds unwaived", None),
+                 ("RegHttpMC", "C12_mc_t3.cfg", "3 hosts, R 1-3", None),
+                 ("RegHttpMC", "C12_mc_t2ids.cfg", "2 overlapping requests", None)]
+    states = trans = 0
+    expected = {}
+    for mod, cfg, label, expect in runs:
+        r = ctx.tlc(mod, cfg, label=label, timeout=3000, allow_violation=expect is not None)
+        if expect is not None:
+            if not r["violated"] or expect not in r["violated"]:
+                raise vlib.ToolError("%s/%s: the design spec no longer shows %s (got %s): (D) drifted from the code"
+                                     % (mod, cfg, expect, r["violated"]))
+            expected[cfg] = r["violated"]
+        else:
+            states += r["distinct"]
+            trans += r["generated"]
+    cov["states"], cov["transitions"] = states, trans
+    cov["design_level_counterexamples"] = expected
 
 
 # ---------------------------------------------------------------------- validation
@@ -358,17 +460,102 @@ def validate(ctx, traces, cov, what, s1_sample=6):
     return accepted
 
 
+def binding_demo(ctx, traces):
+    """A corrupted copy of an accepted trace must be rejected, else the trace spec does not bind."""
+    def retry_pair(t):
+        ev = t["events"]
+        for i in range(len(ev) - 1):
+            a, b = ev[i], ev[i + 1]
+            if a["ev"] == "att" and b["ev"] == "att" and a["k"] == "tf" and a["h"] == b["h"] and a["id"] == b["id"]:
+                return i
+        return None
+    def plain(t):
+        # every logical request of the trace uses back-off (no IgnoreErr): the demand applies to every retry
+        return all(e.get("ie") == 0 for e in t["events"] if e["ev"] == "do")
+    base = next((t for t in traces if t["scenario"].get("layer") == 1 and plain(t) and retry_pair(t) is not None
+                 and not t["meta"].get("hang")), None)
+    if base is None:
+        raise vlib.ToolError("no accepted trace with a retry to demonstrate the binding")
+    i = retry_pair(base)
+    demos = []
+    d1 = copy.deepcopy(base)
+    d1["events"][i + 1]["ta"] = d1["events"][i]["tr"] + 1
+    d1["id"] = "demo-no-backoff"
+    demos.append((d1, "backoff-gap"))
+    d2 = copy.deepcopy(base)
+    d2["events"][i + 1:i + 1] = [copy.deepcopy(d2["events"][i]) for _ in range(d2["header"]["R"] + 2)]
+    for j, e in enumerate(d2["events"]):
+        if e["ev"] == "att":
+            e["ta"] += 100000 * j
+            e["tr"] += 100000 * j
+    d2["id"] = "demo-too-many-attempts"
+    demos.append((d2, "attempt-bound"))
+    wr = next((t for t in traces if t["scenario"].get("layer") == 2 and len(t["header"]["hosts"]) > 1
+               and any(e["ev"] == "att" and e["mut"] == 1 for e in t["events"])), None)
+    if wr is not None:
+        d3 = copy.deepcopy(wr)
+        e = next(e for e in d3["events"] if e["ev"] == "att" and e["mut"] == 1)
+        e["h"] = d3["header"]["hosts"][0]
+        d3["id"] = "demo-write-to-mirror"
+        demos.append((d3, "write-to-mirror"))
+    for d, want in demos:
+        d["header"] = dict(d["header"], waive=["prio-asc"])
+        _, rj = ctx.validate_batch("RegHttpTrace", "C12_trace.cfg", [d])
+        if not rj or want not in (rj[0]["detail"] or ""):
+            raise vlib.ToolError("binding demo %s: expected rejection %s, got %s" % (d["id"], want, rj and rj[0]["detail"]))
+    return len(demos)
+
+
 def run(ctx):
+    import os
     rng = random.Random(ctx.seed)
     ctx.build("c12drv")
     cov = {}
-    only = (ctx.replay and None) or __import__("os").environ.get("C12_ONLY", "")
+    only = os.environ.get("C12_ONLY", "")
     accepted = 0
+    alltr = []
+    if only in ("", "mc"):
+        model_check(ctx, cov)
     if only in ("", "l1"):
         traces = run_l1(ctx, rng, cov)
         accepted += validate(ctx, traces, cov, "l1")
+        alltr += traces
     if only in ("", "l2"):
-        traces2 = run_l2(ctx, rng, cov)
-        accepted += validate(ctx, traces2, cov, "l2")
+        traces = run_l2(ctx, rng, cov)
+        accepted += validate(ctx, traces, cov, "l2")
+        alltr += traces
+    if only in ("", "up"):
+        traces = run_up(ctx, rng, cov)
+        accepted += validate(ctx, traces, cov, "up", s1_sample=0)
+        alltr += traces
+    if only == "" and not ctx.violations:
+        cov["binding_demos_rejected"] = binding_demo(ctx, alltr)
     cov["traces_validated_against_impl"] = accepted
-    return "model_checking", cov, []
+    cov["evaluations"] = len(alltr)
+    sigs = set()
+    for t in alltr:
+        sigs.add(json.dumps([(e["ev"], e.get("k"), e.get("h"), e.get("call"), e.get("ok")) for e in t["events"]]))
+    cov["distinct_nontrivial"] = len(sigs)
+    cov["rule"] = ("an evaluation = one scenario executed on the real code (layer 1: scripted replies on reghttp.Client; "
+                   "layer 2: one scheme/reg operation with a fault plan and a mirror set against simreg; upload: a scripted "
+                   "upload session); distinct = distinct sequences of (event, reply class, host, call, result)")
+    cov["exhaustive"] = False
+    samples = []
+    for t in alltr[:1] + alltr[-1:]:
+        samples.append({"id": t["id"], "scenario": t["scenario"], "events": t["events"][:30]})
+    cov["samples"] = samples
+    cov["entry_points"] = ["reghttp.Client.Do", "reghttp.Resp.Read", "reghttp.Resp.Seek", "reghttp.Resp.Close"] + \
+                          ["scheme/reg: " + o for o in OPS]
+    assumptions = [
+        "exhaustive only within the stated constants ((D): <=3 hosts, <=2 overlapping requests, retry limit <=3, "
+        "content of 2 symbols, <=5 faults per behaviour; upload loop: 3 offsets, 2-offset chunks)",
+        "times are read from a monotonic clock at the model hosts; only lower bounds are demanded, measured from a "
+        "reference that scheduling noise can only move in the safe direction",
+        "'a backing-off host was tried before an idle one' is only claimed for Retry-After windows that extend >= 0.5 s "
+        "beyond the start of the call (assumes no 0.5 s stall between two statements of the driver)",
+        "a call counts as not terminating when its goroutine is parked in pqueue.Acquire in a sequential scenario "
+        "(only that goroutine could release a slot), observed three times 20 ms apart after 200 ms without activity",
+        "layer 2 groups wire requests into logical requests by method+URL (calls are not visible from outside)",
+        "the model registry simreg conforms to the distribution spec (it is an independent implementation)",
+    ]
+    return "model_checking", cov, assumptions
